@@ -31,9 +31,10 @@ PY = sys.executable
 
 
 def fidelity(n_seq, seed=1):
-    from sim import simfs
+    from sim import simenv, simfs
     from sim.simfs import SimFS, mounted
     simfs.install()
+    simenv.install_clock()      # gzip header mtime must not differ
     bad = 0
     for s in range(n_seq):
         rng = random.Random(seed * 100003 + s)
